@@ -160,6 +160,21 @@ var c05 = gen.Register(&gen.Check[caseC05]{
 				return gen.Fail("Equal/mutates", "a comparison changed an operand")
 			}
 		}
+		// the operands are looked at (encoded, printed, marshalled) and compared again: same answers
+		for _, x := range []*pt.Built{a, b} {
+			if _, err := pt.ApplyStep(x.E, pt.Step{Op: "observe"}, x.Model); err != nil {
+				return &gen.Inconclusive{Msg: err.Error()}
+			}
+		}
+		if got := a.E.Equal(b.E); got != wi {
+			return gen.Fail("Equal/after-observers", "Equal(%s, %s) = %d after both operands were encoded and printed, %d before", a.Model, b.Model, got, wi)
+		}
+		if got := a.E.IsIdentity(); got != a.Model.Inf {
+			return gen.Fail("IsIdentity/after-observers", "IsIdentity = %v for %s after it was encoded and printed", got, a.Model)
+		}
+		if got := b.E.IsIdentity(); got != b.Model.Inf {
+			return gen.Fail("IsIdentity/after-observers", "IsIdentity = %v for %s after it was encoded and printed", got, b.Model)
+		}
 		return nil
 	},
 })
